@@ -54,6 +54,7 @@ type OutMsg struct {
 	Deferred bool // queued behind Receive Maximum by the model's reckoning
 	Offline  bool // queued while the session had no connection
 	Retained bool // delivery of a retained message on subscribe
+	WasDeferred bool // was at some point held back by Receive Maximum
 }
 
 type Session struct {
@@ -69,6 +70,7 @@ type Session struct {
 	Taint     map[string]bool
 	WillSlot  *Will
 	Abandoned bool
+	FirstTx   map[string]*txRec
 }
 
 type Expect struct {
@@ -288,4 +290,20 @@ func topicShape(t string) string {
 		return "$other"
 	}
 	return "plain"
+}
+
+// txRec records the first transmission of a message to a session (C12).
+type txRec struct {
+	ID, From, Topic string
+	QoS             byte
+	No              int
+	Seq             int64
+}
+
+func msgNo(m *Msg) int {
+	n := 0
+	for _, ch := range m.ID[1:] {
+		n = n*10 + int(ch-'0')
+	}
+	return n
 }
